@@ -1,0 +1,33 @@
+/*!
+Observation hooks for model-based verification
+===============================================
+
+Only compiled with the cargo feature `verif_hooks`. Records, in a thread-local sink,
+the schedule-dependent events of the library (order in which system ids and carriers
+are visited, weighting factor look-ups). Observation only: nothing here changes results.
+*/
+
+use std::cell::RefCell;
+
+thread_local! {
+    static SINK: RefCell<Option<Vec<serde_json::Value>>> = RefCell::new(None);
+}
+
+/// Start recording events in the current thread (drops anything recorded before)
+pub fn start() {
+    SINK.with(|s| *s.borrow_mut() = Some(Vec::new()));
+}
+
+/// Stop recording and return the recorded events
+pub fn take() -> Vec<serde_json::Value> {
+    SINK.with(|s| s.borrow_mut().take().unwrap_or_default())
+}
+
+/// Record an event (the closure is only evaluated while recording)
+pub fn emit<F: FnOnce() -> serde_json::Value>(f: F) {
+    SINK.with(|s| {
+        if let Some(v) = s.borrow_mut().as_mut() {
+            v.push(f())
+        }
+    });
+}
